@@ -150,6 +150,9 @@ def _kopt_step(u, jump, pdp=False):
     u.prove("step.rec_best-not-aliased", out["rec_best"].root() is not nxt.root())
     same_tensor(u, "step.i", out["i"], (B, 1), (lambda bb, _: pre["i"].at(bb, 0)) if jump else (lambda bb, _: pre["i"].at(bb, 0) + 1))
     # visited_time[b, node] = position of the node along the new tour (for nodes reached once: a valid tour)
+    if u.mode == "conc":
+        # (the unrolled concrete run has no invariant facts: the ghost's defining recursion is stated over the emitted tour)
+        u.requires(u.forall((B, N), lambda bb, tt: POS(bb, zint(tt) + 1) == nxt.at(bb, POS(bb, tt))))
     t = u.idx(((1, N + 1),), "t")
     later_distinct = u.forall(((zint(t) + 1, N + 1),), lambda t2: POS(b, t2) != POS(b, t))
     u.prove("step.visited_time-is-position", IMPL(later_distinct, out["visited_time"].at(b, POS(b, t)) == t))
